@@ -179,7 +179,7 @@ void run(size_t idx) {
 
 MonReg reg({"C15", "fault_enumeration",
 			"fault = one reference field (1..3 for multi faults) of an otherwise valid file holds another value. Field offsets come from the BlockRef hook of the traced raw save of the "
-			"file's normal form; values: empty, block count, beyond count, the block itself, its parent, the root, an arbitrary in-range index, 0xFFFFFFFE. Fields are stratified by "
+			"file's normal form; values: empty, block count, beyond count, the block itself, its parent, the root, an arbitrary in-range index, 0xFFFFFFFE, another block of the same type (on every field of small strata). Fields are stratified by "
 			"(block type, declared target class) so that every stratum receives every kind before a second field of the stratum is visited (quick: ~110 faults per real file, 36 per "
 			"synthesised file of each block type; thorough: 2400 / 400 x 14 versions). Pipeline per fault in a fork-isolated child: Load (must return 0) -> query battery -> copy -> raw save "
 			"-> default save -> reload (must return 0). Oracle: no sanitizer/assertion abort, signal, exception or CPU-limit hang. Non-trivial = fault whose file loaded and ran all phases.",
